@@ -84,7 +84,7 @@ def _no_panic(ctx, prog, table):
             tab = tabled.get(f.short, {})
             seen = {}
             for r in inventory(L):
-                n_sites += 1
+                n_sites += 1 if r["kind"] == "slice" else 0
                 ok, msg, key = r["ok"], r["msg"], r["key"]
                 if not ok and key == "pow:Uint::pow":
                     cs = f.call_in_block(r["bb"])
@@ -114,11 +114,10 @@ def _no_panic(ctx, prog, table):
                         d = L._single_def(d[3][1][0])
                     e = _uint_pow_exponent(L, d[3]) if d is not None and d[1] == "call" and d[3].short == "Uint::pow" else None
                     u = L.ub(e, (d[3].bb, TERM)) if e is not None else INF
-                    n_sites += 1
                     ctx.ob("no-panic:%s:uint-div:%s" % (f.short, L.render(e) if e is not None else "?"), u <= U192_MAX_POW10,
                            "U192 division by TEN.pow(%s), exponent <= %s: divisor non-zero" % (L.render(e) if e is not None else "?", u), where=cs.where())
     ctx.floor("no-panic:functions", n_fns, 25)
-    ctx.floor("no-panic:sites", n_sites, 21)
+    ctx.floor("no-panic:slice-sites", n_sites, 8)
 
 
 def _slice_chain(e):
@@ -216,10 +215,20 @@ def _blob(ctx, prog):
     # context words: report_context[i] = payload[32 i .. 32 i + 32]
     n_st = 0
     for bb, si, st in f.statements():
-        if st[0] != "=" or len(st[1]) != 2 or not re.match(r"^\[_\d+\]$", st[1][1]):
+        if st[0] != "=":
+            continue
+        idx = None
+        if len(st[1]) == 2 and re.match(r"^\[_\d+\]$", st[1][1]) and re.search(r"\[\[u8; 32\]; 3\]", f.locals[st[1][0]][0]):
+            idx = L.lin_op([int(st[1][1][2:-1])], (bb, si))                 # report_context[i] = ..
+        elif st[1][1:] == ["*"]:
+            d = L._single_def(st[1][0])                                     # *slot = .. with (i, slot) from iter_mut().enumerate()
+            if d is not None and d[1] != "call" and d[3][0] == "use" and not isinstance(d[3][1], dict) and list(d[3][1][1:]) == ["@Some", ".0", ".1"]:
+                cand = L._lin_place(d[3][1][0], ["@Some", ".0", ".0"], (bb, si), 0)
+                if cand is not None and list(cand.c) and list(cand.c)[0] in L.alias:
+                    idx = cand
+        if idx is None:
             continue
         n_st += 1
-        idx = L.lin_op([int(st[1][1][2:-1])], (bb, si))
         src = _follow_to_call(L, st[2][1]) if st[2][0] == "use" else None
         okc = False
         desc = "?"
